@@ -466,8 +466,15 @@ package fit
 //@   ensures [append] wpos(e.w) >= old(wpos(e.w)) && (forall k in 0..old(wpos(e.w)) :: outb(e.w, k) == old(outb(e.w, k)))
 //@   assigns wpos(e.w), outb(e.w, *), ndefs(e), nrecords(e)
 //@ func (e *encoder) encodeFile(file reflect.Value) (err error)
-//@   props C05
+//@   props C05 C06 C07
 //@   trusted
+//@@ the body is outside the supported subset (map iteration, sort.Slice); what is decided about it is control flow:
+//@@ every message of a slice is written; the shared definition is built from every message of the slice (each one's
+//@@ valid fields are computed and every one of them is entered into the union)
+//@   loop 1 dispatches [each-message-written] writeMesg
+//@   loop 2 dispatches [each-message-inspected] getEncodeMesgDef
+//@   loop 2 dispatches [each-field-set-merged] loop:3
+//@   loop 3 dispatches [each-field-entered] mapupdate
 //@   requires e.w != nil
 //@   ensures [append] wpos(e.w) >= old(wpos(e.w)) && (forall k in 0..old(wpos(e.w)) :: outb(e.w, k) == old(outb(e.w, k)))
 //@   assigns wpos(e.w), outb(e.w, *)
